@@ -160,6 +160,19 @@ theorem C11_bucketwise_copy_is_model_copy (env : Env K) (es : List (K × V)) (cs
     (copyAll mapOfVariant env es d).size = d.size + es.length :=
   Proofs.CopyRep.moveAll_is_copyAll env es cs d hd hg hpos
 
+omit [Inhabited V] in
+/-- **the shrink trigger reads the layout, not the hash**: after a delete `doCompute` attempts a shrink iff
+`newmetaw == defaultMeta`; for a representative bucket whose three unused `meta` bytes still hold their initial value
+(kept by every `setByte` on a slot byte) and a hash byte that is never `emptyMetaSlot` (`h2`: `C10_h2_never_empty`), that
+is exactly "the bucket holds no entry" - M3's `leftEmpty` for `MapOf` - whatever the hash bytes of the deleted keys were -/
+theorem C11_shrink_trigger_is_bucket_empty (hk : K → BitVec 8) (hne : ∀ k, hk k ≠ Gen.emptyMetaSlot)
+    (b : Model.Words.BucketOf K V) (h : Model.Words.RepB hk b) (hu : Proofs.WordsInv.Upper b.metaw) :
+    (b.metaw = Gen.defaultMeta ↔ b.entries = [none, none, none, none, none]) ∧
+    Proofs.WordsInv.Upper Gen.defaultMeta ∧
+    (∀ (x : BitVec 8) (i : Nat), i < 5 → Proofs.WordsInv.Upper (Gen.setByte b.metaw x i)) :=
+  ⟨Proofs.WordsInv.meta_default_iff_empty hk hne b h hu, Proofs.WordsInv.upper_default,
+   fun x i hi => Proofs.WordsInv.upper_setByte b.metaw x i hi hu⟩
+
 /-! Non-vacuity: a free slot in the root bucket is filled; a full one-bucket chain gets a new bucket. -/
 def exFullB : Model.Words.BucketOf Nat Nat := ⟨0#64, [some (1, 1), some (2, 2), some (3, 3), some (4, 4), some (5, 5)]⟩
 def exAppHeap : Deep.T.Heap Nat Nat :=
